@@ -184,6 +184,9 @@ func (e *Eng) binop(op token.Token, a, b Val, hook func(kind, cond string), reac
 		}
 	case token.SHR:
 		if k, ok := litVal(y); ok && k < 63 {
+			if xv, ok := litVal(x); ok && xv >= 0 {
+				return Val{T: a.T, C: []string{intLit(xv >> uint(k))}}
+			}
 			return Val{T: a.T, C: []string{sx("div", x, pow2(int(k)))}}
 		}
 	case token.LSS:
@@ -296,11 +299,17 @@ func (e *Eng) convert(v Val, t types.Type) Val {
 		}
 	case sBV && !dBV:
 		n := sx("bv2nat", x)
+		if sb == 8 && !ss {
+			n = e.b2i(x)
+		}
 		if ss {
 			n = ite(eq(sx(fmt.Sprintf("(_ extract %d %d)", sb-1, sb-1), x), "#b1"), sx("-", n, pow2(sb)), n)
 		}
 		return e.wrapInt(Val{T: v.T, C: []string{n}}, sb, ss, db, ds, t)
 	case !sBV && dBV:
+		if v, ok := litVal(x); ok {
+			return Val{T: t, C: []string{bvLit(db, uint64(v))}}
+		}
 		return Val{T: t, C: []string{sx(fmt.Sprintf("(_ int2bv %d)", db), x)}}
 	}
 	return e.wrapInt(v, sb, ss, db, ds, t)
@@ -311,6 +320,13 @@ func (e *Eng) wrapInt(v Val, sb int, ss bool, db int, ds bool, t types.Type) Val
 	// does the destination range include the source range?
 	if (ss == ds && db >= sb) || (!ss && ds && db > sb) {
 		return Val{T: t, C: []string{x}}
+	}
+	if sb == db && ss != ds {
+		// same width, sign change: a single wrap
+		if ds {
+			return Val{T: t, C: []string{ite(sx(">=", x, pow2(db-1)), sx("-", x, pow2(db)), x)}}
+		}
+		return Val{T: t, C: []string{ite(sx("<", x, "0"), sx("+", x, pow2(db)), x)}}
 	}
 	if !ds {
 		return Val{T: t, C: []string{sx("mod", x, pow2(db))}}
@@ -443,6 +459,11 @@ func (e *Eng) globalValue(st *State, o *types.Var) Val {
 				e.declFun("gconst.id", "(Int) Int")
 				e.pre.asserts.WriteString(fmt.Sprintf("(assert (and (< %s 0) (= (gconst.id %s) %d)))\n", c, c, id))
 				e.globalInitFacts(o, c)
+				if _, isI := t.Underlying().(*types.Interface); isI && o.Pkg() != e.pkg.Pkg {
+					// dynamic type of an interface-valued variable of another
+					// package: an (unexported) type this package cannot construct
+					e.pre.asserts.WriteString("(assert (< " + e.itype(c) + " 0))\n")
+				}
 			}
 			return Val{T: t, C: []string{c}}
 		}
